@@ -341,6 +341,11 @@ func inflate0(flatCoords []float64, offset, end, stride int) Coord {
 }
 
 func inflate1(flatCoords []float64, offset, end, stride int) []Coord {
+	if offset == end {
+		// Nothing to unpack, and nothing to divide: the stride is zero for
+		// geometries without a layout, which can only be empty.
+		return []Coord{}
+	}
 	coords1 := make([]Coord, (end-offset)/stride)
 	for i := range coords1 {
 		coords1[i] = inflate0(flatCoords, offset, offset+stride, stride)
